@@ -667,7 +667,9 @@ pub fn run_evaluate(rep: &mut Report, driver: &str, workers: usize, thorough: bo
         };
         sr.hist("impl_outcome", if direct.starts_with("(outcomes") { "outcomes" } else if direct.starts_with("PANIC") { "panic" } else { "call-failed" });
         let model_vals = m.split('\t').next().unwrap_or("");
+        let prop = rep.property.clone();
         let mut push = |pred: &str, sig: &str, model_out: &str| {
+            let sig = &sig.replace("C09", &prop);
             rep.add_finding(Finding { kind: "impl-violates-property".into(), stream: "evaluate-serializable".into(), case: format!("evalser\t(rules{})\t{}", rules_s, enc_serval(v)), human: format!("{:?}", v).chars().take(200).collect(), impl_out: direct.clone(), model_out: model_out.into(), predicate: pred.into(), signature: sig.into() })
         };
         if direct.starts_with("PANIC") {
